@@ -40,10 +40,12 @@ def is_code_quoted(v):
     return isinstance(v, str) and len(v) > 6 and v.startswith("```") and v.endswith("```")
 
 
-def norm_default(v, present=True):
+def norm_default(v, present=True, typ=None):
     """Canonical form of a default: ABSENT | ("none",) | (pytype, value) | ("code", src)."""
     if not present:
         return ABSENT
+    if v == "None" and isinstance(typ, str) and (typ == "str" or typ.startswith("Literal[")):
+        return ("str", "None")  # the four letters, not the missing value: None is not a member of these types
     if isinstance(v, ast.AST):
         return ("ast", ast.unparse(v))
     if v is None or (isinstance(v, str) and v in NONE_FORMS):
@@ -72,7 +74,7 @@ def project_param(p):
     if doc is not None and not isinstance(doc, str):
         doc = "<nonstr:%r>" % (doc,)
     doc = wsn(doc) if doc else None
-    return typ, doc, norm_default(p.get("default"), "default" in p)
+    return typ, doc, norm_default(p.get("default"), "default" in p, typ)
 
 
 def project(ir):
